@@ -108,6 +108,15 @@ public:
       std::string const format_part_2 =
         _time_format.substr(specifier_end, _time_format.length() - specifier_end);
 
+      // a fractional seconds specifier can only appear once, reject any further occurrence
+      for (size_t i = AdditionalSpecifier::Qms; i <= AdditionalSpecifier::Qns; ++i)
+      {
+        if (format_part_2.find(specifier_name[i]) != std::string::npos)
+        {
+          QUILL_THROW(QuillError{"format specifiers %Qms, %Qus and %Qns can only be used once"});
+        }
+      }
+
       if (!format_part_2.empty())
       {
         _strftime_part_2.init(format_part_2, _timestamp_timezone);
